@@ -178,3 +178,26 @@ pub proof fn lemma_intersperse_words(s: Seq<DocV>, sep: DocV)
         reveal_with_fuel(docs_w, 3);
     }
 }
+pub proof fn lemma_items_w_step(s: Seq<ItemV>, j: int)
+    requires 0 <= j < s.len(),
+    ensures items_w(s.subrange(0, j + 1)) == items_w(s.subrange(0, j)) + item_words(s[j]), items_wst(s) ==> item_wst(s[j]),
+{
+    assert(s.subrange(0, j + 1) =~= s.subrange(0, j).push(s[j]));
+    lemma_items_w_push(s.subrange(0, j), s[j]);
+    reveal(items_wst);
+}
+/// the algebra of W over the document constructors, as quantified facts triggered by the constructor terms (cheaper than unfolding
+/// `words` / `alt_ok` with fuel on deep documents)
+pub proof fn lemma_w_algebra()
+    ensures
+        forall|a: DocV, b: DocV| #![trigger cat(a, b)] wd(cat(a, b)) == wd(a) + wd(b) && (wst(a) && wst(b) ==> wst(cat(a, b))),
+        forall|n: int, a: DocV| #![trigger nest(n, a)] wd(nest(n, a)) == wd(a) && (wst(a) ==> wst(nest(n, a))),
+        forall|a: DocV| #![trigger group(a)] wd(group(a)) == wd(a) && (wst(a) ==> wst(group(a))),
+        forall|a: DocV, b: DocV| #![trigger flat_alt(a, b)] wd(flat_alt(a, b)) == wd(a) && (wst(a) && wst(b) && wd(a) == wd(b) ==> wst(flat_alt(a, b))),
+        forall|s: Seq<char>| #![trigger txt(s)] wd(txt(s)) == word_of(s) && wst(txt(s)),
+        wd(DocV::Nil).len() == 0 && wst(DocV::Nil), wd(DocV::Hardline).len() == 0 && wst(DocV::Hardline),
+        wd(DocV::Line).len() == 0 && wst(DocV::Line), wd(DocV::LineSoft).len() == 0 && wst(DocV::LineSoft), wd(sp()).len() == 0 && wst(sp()),
+{
+    reveal_with_fuel(words, 3); reveal_with_fuel(alt_ok, 3);
+    assert forall|a: DocV, b: DocV| #![trigger flat_alt(a, b)] wd(flat_alt(a, b)) == wd(a) && (wst(a) && wst(b) && wd(a) == wd(b) ==> wst(flat_alt(a, b))) by {}
+}
